@@ -15,7 +15,7 @@ from . import amptools as AT
 from .common import EPS, facts, far, far_c, re_im, simp, tensor_of, term_of
 
 PID = "C03"
-LEVEL = "other"
+LEVEL = "model_checking"
 CLAIM = (
     "Bounded symbolic verification on real amplitude models built by ConfigLoader from dictionary configurations (3 chains in 2 "
     "topologies, spins 0/1; a spin-1 model with three topologies; a half-integer-spin model in thorough): all couplings are symbolic "
